@@ -625,6 +625,7 @@ void iplan_fn(int tier)
 {
   // one image, or (1 run in 4) two or three images written concurrently by their own threads, often
   // by the same writer
+  sim_set_step_cap(2000000);  // the writers' row buffer is a heap block since /repo bbff51b: every component copied is a step
   nimages = sim_plan(4) == 0 ? 2 + (int)sim_plan(2) : 1;
   int common = (int)sim_plan(6);
   bool same = sim_plan(3) != 0;
@@ -639,13 +640,14 @@ void iplan_fn(int tier)
   if (nimages > 1)
     sim_probe(images_sequential ? PI_SEQUENTIAL : PI_CONCURRENT);
   // drawn last: one row larger than a thread's whole default stack (8 MiB on Linux, 512 KiB for secondary threads elsewhere)
-  if (nimages == 1 && sim_plan(40) == 39) {
-    static const int comps[] = {1, 3, 3, 4};
-    iplan.format = 2 + (int)sim_plan(4);
-    iplan.w = (int)((9u << 20) / (4u * (unsigned)comps[iplan.format - 2])) + 1 + (int)sim_plan(1000);
+  if (nimages == 1 && sim_plan(120) == 119) {
+    static const int comps[] = {3, 3, 4};
+    iplan.format = 3 + (int)sim_plan(3);  // the three multi-component PFM formats: fewest pixels for that many bytes
+    iplan.w = (int)((9u << 20) / (4u * (unsigned)comps[iplan.format - 3])) + 1 + (int)sim_plan(1000);
     iplan.h = 1;
     iplans[0] = iplan;
     sim_probe(PI_ROW_ABOVE_STACK);
+    sim_set_step_cap(60000000);  // every pixel access of the single thread counts as a step
   }
 }
 void one_image_plan(int tier, bool small)
